@@ -193,10 +193,25 @@ def rule_segloop(ctx):
 
 THOROUGH_FS = ["pt", "none", "serde"]
 
-RULES = [("SEGLOOP", rule_segloop, 36)]
+def rule_build_frame(ctx):
+    """'for every accepted string .. (every instantiation)': what the segment decoders produced is what the PURL reports only
+    if build() and the type's finish hook leave namespace and subpath alone (C02's BUILD-FRAME obligations; for the typed
+    PURL, C08's FRAME: the hook takes mutable access to parts.name only)."""
+    from .common import build_frame_obligations
+    build_frame_obligations(ctx, "BUILD-FRAME")
+    if "package_type::PackageType" in ctx.facts().adts:
+        from . import C08
+        C08.rule_frame(ctx)
+
+
+RULES = [
+    ("SEGLOOP", rule_segloop, 36),
+    ("BUILD-FRAME", rule_build_frame, 2),
+    ("FRAME", lambda ctx: None, 0),
+]
 
 MANIFEST = {
-    "text": "Structural static decision for all inputs: both segment loops (found by dataflow role) split the raw region on '/' before decoding, skip exactly the documented raw segments, refuse a decoded segment containing '/' (and '.'/'..' for the subpath) with InvalidEscape on every path to the append, append exactly decode(segment), join with '/' only when the accumulator is non-empty; dominance and failing-edge reachability are computed on MIR.",
+    "text": "Structural static decision for all inputs: both segment loops (found by dataflow role) split the raw region on '/' before decoding, skip exactly the documented raw segments, refuse a decoded segment containing '/' (and '.'/'..' for the subpath) with InvalidEscape on every path to the append, append exactly decode(segment), join with '/' only when the accumulator is non-empty; dominance and failing-edge reachability are computed on MIR. What the decoders stored is what is reported: build() and the built-in type's finish hook write neither namespace nor subpath (BUILD-FRAME / FRAME obligations shared with C02 and C08).",
     "note": "Trusted: rustc MIR, extractor, callee semantics of str::split/trim_matches/contains and of the strict decoder (non-empty in => non-empty out). Decides structure, not executions.",
     "technique": "loop-body summary from MIR (dominating guard atoms over region terms, failing-edge reachability, write whitelist on the accumulator)",
     "design_ref": "DESIGN.md 5.7",
